@@ -298,6 +298,30 @@ class OnceIter(ListIter):
     pass
 
 
+class CrateIter(Iter):
+    """an iterator type defined in the crate (e.g. strum's EnumIter): next() is the crate's own impl"""
+
+    def __init__(self, I, adt, prefix):
+        self.adt, self.prefix = adt, prefix
+
+    def next(self, I):
+        return I.run(self.prefix + '::next', [mkref(self.adt)])
+
+    def next_back(self, I):
+        for (tr, ty), pre in I.impls.items():
+            if tr == 'DoubleEndedIterator' and ty == self.adt.name:
+                return I.run(pre[0] + '::next_back', [mkref(self.adt)])
+        raise Unsupported('crate iterator is not double-ended')
+
+
+def crate_iter(I, v):
+    if isinstance(v, Adt):
+        pre = I.impls.get(('Iterator', v.name))
+        if pre:
+            return CrateIter(I, v, pre[0])
+    return None
+
+
 def to_iter(I, v):
     """IntoIterator::into_iter"""
     if isinstance(v, Iter):
@@ -342,6 +366,9 @@ def to_iter(I, v):
         return FromFnIter(v)
     if hasattr(v, 'iter_model'):
         return v.iter_model(I, False)
+    ci = crate_iter(I, v)
+    if ci is not None:
+        return ci
     raise Unsupported('into_iter of ' + repr(v))
 
 
@@ -392,7 +419,17 @@ def m_once(I, path, args):
 def m_iter_method(I, path, args):
     sp = strip_generics(path)
     meth = sp.split('::')[-1]
-    it = _it(args[0])
+    r0 = args[0]
+    while isinstance(r0, Ref):
+        r0 = r0.lv.get()
+    ci = crate_iter(I, r0)
+    if ci is not None:
+        # methods the crate's impl defines itself (next, nth, size_hint, next_back...) are run from MIR
+        for tr in ('Iterator', 'DoubleEndedIterator', 'ExactSizeIterator'):
+            for pre in I.impls.get((tr, r0.name), []):
+                if (pre + '::' + meth) in I.crate.index:
+                    return I.run(pre + '::' + meth, args)
+    it = ci if ci is not None else _it(args[0])
     c = I.ctx
     if meth == 'next':
         return it.next(I)
